@@ -211,7 +211,8 @@ func reachableList(from *ssa.BasicBlock, depth int) []*ssa.BasicBlock {
 func callSitesOf(c *Ctx, callee *ssa.Function) []ssa.CallInstruction {
 	var out []ssa.CallInstruction
 	for _, in := range c.CG().reverseVTA()[callee] {
-		if in.edge.Site != nil && !in.edge.Fallback && in.edge.Site.Common().StaticCallee() == callee {
+		// the compiler-made pointer-receiver twin of a value method calls the method too; it is not a call site of the program
+		if in.edge.Site != nil && !in.edge.Fallback && in.edge.Site.Common().StaticCallee() == callee && in.edge.Site.Parent().Synthetic == "" {
 			out = append(out, in.edge.Site)
 		}
 	}
